@@ -151,11 +151,12 @@ def processed_pair(pt):
     ref, est = ref.copy(), est.copy()
     timed = fmt != "kitti"
     if pt["downsample"]:
-        ref = pl.downsample(ref, pt["downsample"])
-        est = pl.downsample(est, pt["downsample"])
+        ref = pl.downsample(ref, pt["downsample"], c15.evo_downsample_ids)
+        est = pl.downsample(est, pt["downsample"], c15.evo_downsample_ids)
     if pt["motion_filter"]:
         if not timed:
-            raise pl.Refusal("motion-filter-without-stamps")
+            raise pl.Refusal("motion-filter-without-stamps",
+                             allowed_only=True)
         d, a = pt["motion_filter"]
         ref = pl.motion_filter(ref, d, a)
         est = pl.motion_filter(est, d, a)
